@@ -379,7 +379,6 @@ func (cfg *Config) getCertDuringHandshake(ctx context.Context, hello *tls.Client
 			// By this point, we need to ask the CA for a certificate
 			return cfg.obtainOnDemandCertificate(ctx, hello)
 		}
-		return loadedCert, nil
 	}
 
 	// Fall back to another certificate if there is one (either DefaultServerName or FallbackServerName)
